@@ -3,7 +3,7 @@
 import time
 from typing import Callable, Dict, List, Optional, Tuple
 
-from .absint import (DontCare, DictVal, ExcVal, Interp, Lin, Lst, MinMax, ObjVal, PyRaise, SetVal, State, Str, Tup, feasible,
+from .absint import (DontCare, NeedSplit, DictVal, ExcVal, Interp, Lin, Lst, MinMax, ObjVal, PyRaise, SetVal, State, Str, Tup, feasible,
                      label_var, weak_orders)
 from .index import Index, Undecided
 
@@ -89,6 +89,8 @@ def run_code(idx: Index, state: State, thunk: Callable[[Interp], object], overri
         return Outcome("raise", e.name, I.prints), I
     except DontCare as e:
         return Outcome("dontcare", str(e)), I
+    except NeedSplit as e:
+        return Outcome("split", e), I
     except Undecided as e:
         return Outcome("undecided", str(e)), I
     except RecursionError:
@@ -103,6 +105,8 @@ def run_spec(idx: Index, state: State, thunk: Callable[["Oracle"], object]) -> O
         return Outcome("raise", e.name)
     except DontCare as e:
         return Outcome("dontcare", str(e))
+    except NeedSplit as e:
+        return Outcome("split", e)
     except Undecided as e:
         return Outcome("undecided", "spec: " + str(e))
 
@@ -321,13 +325,51 @@ _ROW_FN = None
 _ATOMS = None
 
 
+def refine(st, lin, sign):
+    """The sub-state of st in which lin has the given sign (lazy refinement of the abstract domain)."""
+    side = list(st.side)
+    if sign < 0:
+        side.append((lin, True))
+    elif sign > 0:
+        side.append((lin.neg(), True))
+    else:
+        side.append((lin, False))
+        side.append((lin.neg(), False))
+    st2 = State(st.atoms, st.ranks, side)
+    st2.refined = getattr(st, "refined", ()) + ("%r %s 0" % (lin, "<=>"[sign + 1]),)
+    return st2
+
+
+def expand(st, row_fn, only=None, depth=0):
+    """Rows of one abstract state; comparisons the state leaves open split it into sub-states."""
+    rows = row_fn(st)
+    case = st.describe() + ("".join("; " + r for r in getattr(st, "refined", ())))
+    out, pending = [], {}
+    for row in rows:
+        mode, ok, detail, und = row
+        if only is not None and mode not in only:
+            continue
+        if isinstance(und, NeedSplit):
+            if depth >= 7:
+                out.append((case, (mode, False, "", "refinement depth exceeded: " + str(und))))
+                continue
+            k = und.lin.key()
+            pending.setdefault(k, (und.lin, []))[1].append(mode)
+        else:
+            out.append((case, row))
+    for lin, modes in pending.values():
+        for sg in sorted(st.signs(lin)):
+            out.extend(expand(refine(st, lin, sg), row_fn, set(modes), depth + 1))
+    return out
+
+
 def _worker(chunk):
     out = []
     for ranks in chunk:
         st = _ATOMS.make_state(ranks)
         if st is None:
             continue
-        out.append((st.describe(), _ROW_FN(st)))
+        out.append((st.describe(), expand(st, _ROW_FN)))
     return out
 
 
@@ -342,8 +384,8 @@ def run_states(at, row_fn, tr, parallel_threshold=6):
         states = list(at)
         tr.states += len(states)
         for st in states:
-            for mode, ok, detail, undecided in row_fn(st):
-                tr.row(st.describe(), mode, ok, detail, undecided)
+            for case, (mode, ok, detail, undecided) in expand(st, row_fn):
+                tr.row(case, mode, ok, detail, undecided)
         return
     raw = at.raw()
     results = []
@@ -361,8 +403,8 @@ def run_states(at, row_fn, tr, parallel_threshold=6):
     else:
         results = _worker(raw)
     tr.states += len(results)
-    for case, rows in results:
-        for mode, ok, detail, undecided in rows:
+    for _, rows in results:
+        for case, (mode, ok, detail, undecided) in rows:
             tr.row(case, mode, ok, detail, undecided)
 
 
@@ -370,6 +412,8 @@ def compare_outcomes(I, mode, got, want, check_span=True, eq=None):
     """-> (mode, ok, detail, undecided) row."""
     if got.kind == "dontcare" or want.kind == "dontcare":
         return (mode, True, "dontcare", None)
+    if got.kind == "split" or want.kind == "split":
+        return (mode, False, "", got.value if got.kind == "split" else want.value)
     if got.kind == "undecided" or want.kind == "undecided":
         return (mode, False, "", got.value if got.kind == "undecided" else want.value)
     if got.kind != want.kind:
